@@ -230,6 +230,7 @@ def check(run, record_expected=False):
     from vf.props import C07_ded
     deductive.add_evaluated(run, ded, C07_ded.parser_utils_audit(), "audit")
     deductive.add_evaluated(run, ded, gen_tail_items(5 if run.tier == "quick" else 6), "doctrans.gen:gen")
+    deductive.add_evaluated(run, ded, [i for i in sync_ded.atomicity_items() if i[0] == "G-guarded-path"], "doctrans.gen:gen")
     js = jobs(run.tier)
     with ThreadPoolExecutor(max_workers=16) as ex:
         res = list(ex.map(_run, js))
